@@ -66,6 +66,13 @@ pub struct C05 {
     /// 1 = count(), 2 = last(), 3 = for_each()
     #[serde(default)]
     pub terminal: u8,
+    /// CPUs available to the process (what available_parallelism reports)
+    #[serde(default = "default_cpus")]
+    pub cpus: u8,
+}
+
+fn default_cpus() -> u8 {
+    16
 }
 
 fn default_pool() -> u8 {
@@ -285,7 +292,7 @@ impl Scenario for C05 {
         } else {
             vec![]
         };
-        C05 { run_seed, mode: SMode::draw(&mut rng), n, w, shape, fn_delay, src_delay, stall, hinted, poll_after_end, closed_loop, skips, pool: *rng.pick(&[1u8, 2, 2, 3, 4, 8]), earlier: None, terminal: 0 }.with_history(&mut rng, tier)
+        C05 { run_seed, mode: SMode::draw(&mut rng), n, w, shape, fn_delay, src_delay, stall, hinted, poll_after_end, closed_loop, skips, pool: *rng.pick(&[1u8, 2, 2, 3, 4, 8]), earlier: None, terminal: 0, cpus: 16 }.with_history(&mut rng, tier)
     }
 
     fn run_seed(&self) -> u64 {
@@ -353,6 +360,11 @@ impl Scenario for C05 {
             c.terminal = 0;
             v.push(c);
         }
+        if self.cpus != 16 {
+            let mut c = self.clone();
+            c.cpus = 16;
+            v.push(c);
+        }
         if let Some((count, w, take)) = self.earlier {
             let mut c = self.clone();
             c.earlier = None;
@@ -392,8 +404,9 @@ impl Scenario for C05 {
         let mut spec = ProcSpec::new(self.mode.to_mode(), derive(self.run_seed, 100), derive(self.run_seed, 200));
         // generous: the worst correct run observed needs about 4 000 decisions per item (priority
         // scheduling of busy-waiting workers); see the probe max_step_cap_use_permille
-        spec.step_cap = 200_000 + 40_000 * self.n as u64 + self.earlier.map_or(0, |(c, w, _)| 4_000 * c as u64 * w as u64);
+        spec.step_cap = 200_000 + 40_000 * self.n as u64 + self.earlier.map_or(0, |(c, w, _)| 1_000 * c as u64 * w as u64);
         spec.pool_size = self.pool as u32;
+        spec.cpus = self.cpus as u32;
         if let Plan::Replay { traces, strict } = plan {
             spec = spec.replaying(traces.first().cloned().unwrap_or_default(), *strict);
         }
@@ -563,6 +576,8 @@ impl C05 {
         if self.shape == Shape::Pipe && self.skips.is_empty() && self.closed_loop.is_none() && rng.chance(0.06) {
             self.terminal = rng.range(1, 4) as u8;
         }
+        // a pinned thread, a one-CPU container, a big machine
+        self.cpus = *rng.pick(&[16u8, 16, 16, 1, 2, 4, 64]);
         self
     }
 
